@@ -152,6 +152,12 @@ class Analysis:
         if k == "adt":
             if any(t["name"].startswith(m) for m in E.INTERIOR_MUT):
                 return True
+            if "'" in t.get("s", "") and t["name"] not in E.SHARED_BORROW_ADTS and not t.get("path", "").startswith("graaf::"):
+                # a type with a lifetime parameter may hide a `&mut` (Entry, IterMut, Drain, ...)
+                own = t["s"].split("<", 1)[1] if "<" in t["s"] else ""
+                inner = ",".join(a.get("s", "") for a in t.get("args", []))
+                if own.count("'") > inner.count("'"):
+                    return True
             return any(self.ty_mut_carrier(a, depth + 1) for a in t.get("args", []))
         if k == "tuple":
             return any(self.ty_mut_carrier(a, depth + 1) for a in t["elems"])
@@ -761,7 +767,9 @@ class Analysis:
             if mode == "val":
                 if k == "deref":
                     tg = self.pts.get(L, {})
-                    if vp == "" and len(tg) == 1:
+                    if val[0] == "addr" and val[2] is None and val[1] in self.regions:
+                        name = val[1]        # the pointer is exactly &R: more precise than points-to
+                    elif vp == "" and len(tg) == 1:
                         name = next(iter(tg))
                     elif vp != "" and self.is_value_arg(L):
                         name = "A%d%s*" % (L, vp)
